@@ -3,6 +3,7 @@ from __future__ import annotations
 
 import ast
 import json
+import os
 import time
 from pathlib import Path
 
@@ -37,6 +38,10 @@ class Session:
         return self.ver.verify(target)
 
 
+PAIR_BUDGET = 600  # sub-queries of the two-hypothesis relevance pass per run
+SLOW_BUDGET = 8  # obligations per run that get the sequential instance / counter-model searches
+
+
 def verify_into(ctx, files: list[str], targets: list[str] | None = None, *, timeout_ms: int | None = None,
                 expect_fail: dict[str, str] | None = None) -> dict:
     """Generate and discharge all obligations of `targets` (default: every
@@ -63,7 +68,7 @@ def verify_into(ctx, files: list[str], targets: list[str] | None = None, *, time
         targets = [t for t in targets if t in sess.contracts]
     tier = ctx.tier
     if timeout_ms is None:
-        timeout_ms = 10_000 if tier == "quick" else 60_000
+        timeout_ms = 15_000 if tier == "quick" else 60_000
     all_obls: list[Obligation] = []
     per_fn: dict[str, dict] = {}
     for t in targets:
@@ -105,52 +110,58 @@ def verify_into(ctx, files: list[str], targets: list[str] | None = None, *, time
             results[oid] = solve.Result(oid, "unsat", "syntactic", 0.0)
         else:
             items.append((oid, solve.to_smt2(o.pc, o.goal), solve.to_smt2_core(o.pc, o.goal)))
+    _tm = [time.time()]
+
+    def _stage(label: str) -> None:
+        if os.environ.get("PYVC_TIMING"):
+            now = time.time()
+            unk = sum(1 for r_ in results.values() if r_.status == "unknown")
+            print(f"[pyvc] {label}: {now - _tm[0]:.1f}s, unknown now {unk}", flush=True)
+            _tm[0] = now
+
     for r in solve.discharge(items, timeout_ms, seed(), both=(tier == "thorough")):
         results[r.oid] = r
+    _stage("main discharge")
     # relevance pass: an obligation the solver cannot prove from ALL hypotheses is
     # retried from the quantifier-free hypotheses plus ONE quantified hypothesis at a
     # time (a subset of the hypotheses: a proof from it is a proof).  Irrelevant
     # quantified facts are what makes E-matching diverge.
-    sub_items = []
-    for oid, smt, _core in items:
-        if results[oid].status == "unknown":
-            o = index[oid]
-            core = [p for p in o.pc if not solve.has_forall(p)]
-            fas = [p for p in o.pc if solve.has_forall(p)]
-            for k, h in enumerate(fas):
-                sub_items.append((f"{oid}##{k}", solve.to_smt2(core + [h], o.goal)))
-    if sub_items:
-        for r in solve.discharge(sub_items, min(timeout_ms, 5000), seed()):
-            if r.status == "unsat":
-                oid = r.oid.split("##")[0]
-                if results[oid].status == "unknown":
-                    results[oid] = solve.Result(oid, "unsat", "z3", results[oid].time_s + r.time_s, "",
-                                                "proved from the quantifier-free hypotheses plus one quantified hypothesis")
-    # second relevance pass: quantifier-free hypotheses plus PAIRS of quantified ones
     import itertools
 
+    # (the worker receives the full obligation once and tries the subsets itself: serialising
+    # hundreds of variants of a large obligation in this process took longer than solving them)
     sub_items = []
     for oid, smt, _core in items:
         if results[oid].status == "unknown":
-            o = index[oid]
-            core = [p for p in o.pc if not solve.has_forall(p)]
-            fas = [p for p in o.pc if solve.has_forall(p)]
-            if 2 <= len(fas) <= 24:
-                for (a, ha), (b, hb) in itertools.combinations(enumerate(fas), 2):
-                    sub_items.append((f"{oid}##{a}_{b}", solve.to_smt2(core + [ha, hb], o.goal)))
-    if sub_items:
-        for r in solve.discharge(sub_items, min(timeout_ms, 4000), seed()):
-            if r.status == "unsat":
-                oid = r.oid.split("##")[0]
-                if results[oid].status == "unknown":
-                    results[oid] = solve.Result(oid, "unsat", "z3", results[oid].time_s + r.time_s, "",
-                                                "proved from the quantifier-free hypotheses plus two quantified hypotheses")
+            nf = sum(1 for p in index[oid].pc if solve.has_forall(p))
+            if nf:
+                sub_items.append((oid, smt, [(k,) for k in range(nf)]))
+    for r in solve.discharge_subsets(sub_items, min(timeout_ms, 5000), seed(), wall_s=60.0):
+        if r.status == "unsat" and results[r.oid].status == "unknown":
+            results[r.oid] = solve.Result(r.oid, "unsat", "z3", results[r.oid].time_s + r.time_s, "", r.reason)
+    _stage("one-hypothesis pass")
+    # second relevance pass: quantifier-free hypotheses plus PAIRS of quantified ones
+    sub_items = []
+    budget = PAIR_BUDGET
+    for oid, smt, _core in items:
+        if results[oid].status == "unknown" and budget > 0:
+            nf = sum(1 for p in index[oid].pc if solve.has_forall(p))
+            if 2 <= nf <= 24:
+                pairs = list(itertools.combinations(range(nf), 2))[:budget]
+                budget -= len(pairs)
+                sub_items.append((oid, smt, pairs))
+    for r in solve.discharge_subsets(sub_items, min(timeout_ms, 3000), seed(), wall_s=150.0):
+        if r.status == "unsat" and results[r.oid].status == "unknown":
+            results[r.oid] = solve.Result(r.oid, "unsat", "z3", results[r.oid].time_s + r.time_s, "", r.reason)
+    _stage("two-hypothesis pass")
     # still unknown: brute-force instantiation of the quantified hypotheses at the
     # ground terms of the goal (a proof if unsat)
     from . import refute
 
+    n_slow = 0
     for oid, smt, _core in items:
-        if results[oid].status == "unknown":
+        if results[oid].status == "unknown" and n_slow < SLOW_BUDGET:
+            n_slow += 1
             o = index[oid]
             try:
                 ok, why = refute.prove_by_instances(o.pc, o.goal)
@@ -158,10 +169,13 @@ def verify_into(ctx, files: list[str], targets: list[str] | None = None, *, time
                 ok, why = False, f"instantiation error: {e}"
             if ok:
                 results[oid] = solve.Result(oid, "unsat", "z3-ground-instances", results[oid].time_s, "", why)
+    _stage("ground instances")
     # unknown: look for a validated finite-shape counter-model first (DESIGN 2.4)
 
+    n_slow = 0
     for oid, smt, _core in items:
-        if results[oid].status == "unknown":
+        if results[oid].status == "unknown" and n_slow < SLOW_BUDGET:
+            n_slow += 1
             o = index[oid]
             t1 = time.time()
             try:
@@ -172,12 +186,14 @@ def verify_into(ctx, files: list[str], targets: list[str] | None = None, *, time
                 results[oid] = solve.Result(oid, "sat", "z3-finite-model", results[oid].time_s + time.time() - t1, model=why)
             else:
                 results[oid].reason += f"; refuter: {why}"
+    _stage("counter-model search")
     # one retry at 4x budget for unknowns
     retry = [(oid, smt) for oid, smt, _core in items if results[oid].status == "unknown"]
     if retry:
-        for r in solve.discharge(retry, timeout_ms * (2 if tier == "quick" else 4), seed() + 1):
+        for r in solve.discharge(retry, timeout_ms * (3 if tier == "quick" else 4), seed() + 1):
             if r.status != "unknown":
                 results[r.oid] = r
+    _stage("retry")
     # reachability (vacuity): a path whose condition is unsatisfiable is unreachable
     # code; its obligations hold vacuously and are NOT counted.  A function none of
     # whose paths is reachable has a contradictory contract: checker error.
@@ -190,10 +206,11 @@ def verify_into(ctx, files: list[str], targets: list[str] | None = None, *, time
         picked[key] = oid
         reach_items.append((oid, solve.to_smt2(o.pc, z3.BoolVal(False))))
     dead: set[tuple[str, str]] = set()
-    for r in solve.discharge(reach_items, 5000, seed()):
+    for r in solve.discharge_quick(reach_items, 5000, seed(), wall_s=45.0):
         if r.status == "unsat":
             o = index[r.oid]
             dead.add((o.fn, o.path))
+    _stage("reachability")
     ctx.reachability += len(reach_items)
     for t in [t for t in targets if t in per_fn]:
         paths = {o.path for o in index.values() if o.fn == t}
